@@ -186,11 +186,13 @@ fn resolve_once(
 
         if let asm::AstAny::Symbol(ast_symbol) = node
         {
+            // A label that does not fall on an address boundary is
+            // an error inside a block too, once guessing is over
             let cur_address = inner_ctx.eval_address(
                 query.report,
                 query.span,
                 defs,
-                true)?;
+                inner_ctx.can_guess())?;
 
             let new_value = expr::Value::make_integer(cur_address);
             
